@@ -60,6 +60,10 @@ def run(ctx):
     ctx.clause("C17.6 the reader's leaf arrays are filled only by the recursive walk, which every successful build_schema runs")
     _only_the_walk(ctx)
     ctx.clause("C17.7 byte offsets into the schema's typed arrays are element-scaled (no element count used as byte count)")
+    ctx.clause("C17.8 an element's logical type is the one the file states: the LogicalType union tables equal the specification's")
+    from ..rules import logicaltype
+    nlt = logicaltype.check(ctx)
+    ctx.floor("C17 logical type table rows", nlt, 30)
     from ..rules import units
     nu = units.check(ctx, P.lib_functions())
     ctx.count("byte_offsets_into_typed_arrays", nu)
